@@ -332,6 +332,26 @@ def planar_cases(ctx):
                 ctx.fail(cid, 'SO2.theta', 'mismatch', P, 'theta() = %r does not rebuild R' % a)
         if len(outs) == 2 and abs(outs['deg'] - outs['rad'] * 180 / PI) > 1e-9 * max(1.0, abs(outs['deg'])):
             ctx.fail('C05/SO2.theta/theta=%s/deg-vs-rad' % tn, 'SO2.theta', 'mismatch', dict(theta=tn, what='deg-vs-rad'), '%r' % (outs,))
+        # the planar accessors on multi-valued objects, both units: angle j rebuilds value j
+        ths = [th, 0.3, -2.0]
+        for cn_, mk_ in (('SO2', lambda: sm.SO2([ref.rot2(t_) for t_ in ths])), ('SE2', lambda: sm.SE2([ref.rt(ref.rot2(t_), (1.0 + j_, -2.0)) for j_, t_ in enumerate(ths)]))):
+            for u in ('rad', 'deg'):
+                cid = 'C05/%s.theta/multi/theta=%s/%s' % (cn_, tn, u)
+                if not ctx.want(cid):
+                    continue
+                ctx.case(cid, key=cid)
+                P = dict(theta=tn, unit=u, N=3, entry=cn_)
+                ok, a = call(lambda: mk_().theta(unit=u))
+                if not ok:
+                    ctx.fail(cid, cn_ + '.theta', 'raises:' + type(a).__name__, P, '%r' % (a,))
+                    continue
+                try:
+                    av = [float(x) for x in a]
+                except Exception:
+                    ctx.fail(cid, cn_ + '.theta', 'returns:' + type(a).__name__, P, '%r' % (a,))
+                    continue
+                if len(av) != 3 or any(ref.maxdiff(ref.rot2(x if u == 'rad' else x * PI / 180), ref.rot2(t_)) > TOL for x, t_ in zip(av, ths)):
+                    ctx.fail(cid, cn_ + '.theta', 'mismatch', dict(P, what='multi-rebuild'), 'theta(unit=%s) of 3 values = %r does not rebuild them' % (u, av))
 
 
 def ctor_convention(ctx):
